@@ -200,32 +200,83 @@ func c14(w *core.World, r *core.Report) {
 	r.Rule("R14.6", "recovery cleanup is bounded by the rebuilt frontier and touches journal keys only", 1)
 	if f := fn(w, r, "(*syncer.RedisOutput).cleanupRecoveredBisyncCommitRecords"); f != nil {
 		n := 0
-		for _, in := range core.Instrs(f) {
-			c, ok := in.(*ssa.Call)
-			if !ok {
+		// a collection point: a journal record's key (record.Key, read off a record itself) enters a slice or a
+		// map, alone or inside a struct; the lists derived later from what was collected are not record reads
+		isRecordKey := func(v ssa.Value) bool {
+			ld, ok := v.(*ssa.UnOp)
+			if !ok || ld.Op != token.MUL {
+				return false
+			}
+			fa, ok := ld.X.(*ssa.FieldAddr)
+			return ok && core.FieldName(fa) == "Key" && strings.HasSuffix(core.TypeName(fa.X.Type()), "BisyncCommitRecord")
+		}
+		seqBound := func(v ssa.Value) bool {
+			for _, a := range argValues(v, f) {
+				if fieldNameOfLoad(core.Unwrap(a)) == "UnitSeq" {
+					return true
+				}
+			}
+			return false
+		}
+		for _, g := range reachableFuncs(f) {
+			if g != f && !(core.Transparent != nil && core.Transparent(g)) {
 				continue
 			}
-			b, ok := c.Call.Value.(*ssa.Builtin)
-			if !ok || b.Name() != "append" || !strings.HasSuffix(c.Type().String(), "[]string") {
-				continue
-			}
-			n++
-			bounded, journal := false, false
-			for _, fct := range core.FactsAt(c.Block()) {
-				cmp, ok := core.FactCmp(fct)
-				if ok && cmp.Op == token.LEQ && fieldNameOfLoad(cmp.X) == "UnitSeq" && fieldNameOfLoad(cmp.Y) == "UnitSeq" {
-					bounded = true
-				}
-				if fct.Val && isResultOf("pkg/redis/checkpoint.IsBisyncCommitKey", -1)(fct.Cond) {
-					journal = true
-				}
-				if !fct.Val {
-					if u, ok := fct.Cond.(*ssa.UnOp); ok && u.Op == token.NOT && isResultOf("pkg/redis/checkpoint.IsBisyncCommitKey", -1)(u.X) {
-						journal = true
+			for _, in := range core.OwnInstrs(g) {
+				var elems []ssa.Value
+				switch x := in.(type) {
+				case *ssa.Call:
+					if isBuiltin(x, "append") && len(x.Call.Args) == 2 {
+						if els, ok := core.VariadicElems(x.Call.Args[1]); ok {
+							elems = els
+						}
+					}
+				case *ssa.MapUpdate:
+					elems = []ssa.Value{x.Value}
+				case *ssa.Store:
+					if _, isIA := x.Addr.(*ssa.IndexAddr); isIA {
+						elems = []ssa.Value{x.Val}
 					}
 				}
+				collects := false
+				for _, e := range elems {
+					core.Walk(e, func(x ssa.Value) bool {
+						if isRecordKey(x) {
+							collects = true
+							return false
+						}
+						switch y := x.(type) {
+						case *ssa.IndexAddr, *ssa.Index, *ssa.Lookup, *ssa.Next, *ssa.Phi:
+							return false // what was read back from a collection is not a record read
+						case *ssa.Call:
+							if _, isB := y.Call.Value.(*ssa.Builtin); !isB {
+								return false
+							}
+						}
+						return !collects
+					})
+				}
+				if !collects {
+					continue
+				}
+				n++
+				bounded, journal := false, false
+				for _, fct := range core.FactsAt(in.Block()) {
+					cmp, ok := core.FactCmp(fct)
+					if ok && cmp.Op == token.LEQ && fieldNameOfLoad(cmp.X) == "UnitSeq" && seqBound(cmp.Y) {
+						bounded = true
+					}
+					if fct.Val && isResultOf("pkg/redis/checkpoint.IsBisyncCommitKey", -1)(fct.Cond) {
+						journal = true
+					}
+					if !fct.Val {
+						if u, ok := fct.Cond.(*ssa.UnOp); ok && u.Op == token.NOT && isResultOf("pkg/redis/checkpoint.IsBisyncCommitKey", -1)(u.X) {
+							journal = true
+						}
+					}
+				}
+				r.Check(bounded && journal, "cleanupRecoveredBisyncCommitRecords/bounded", in.Pos(), "a key is collected for deletion without 'record.UnitSeq <= frontier.UnitSeq' (bounded=%v) and 'is a journal key' (journal=%v)", bounded, journal)
 			}
-			r.Check(bounded && journal, "cleanupRecoveredBisyncCommitRecords/bounded", c.Pos(), "a key is collected for deletion without 'record.UnitSeq <= frontier.UnitSeq' (bounded=%v) and 'is a journal key' (journal=%v)", bounded, journal)
 		}
 		if n == 0 {
 			r.Fail("cleanupRecoveredBisyncCommitRecords/bounded", f.Pos(), "no key collection found")
